@@ -52,7 +52,7 @@ theorem signal_reqs (s : St) (i : Nat) (r : RResult) (j : Nat) :
   simp only [St.signal]
   split <;> simp only [St.upd, St.emit] <;> split <;> simp_all
 
-theorem invW_loop (cfg : Cfg) (s : St) (k : Nat) (hA : InvA s) (h : InvW cfg s) : InvW cfg (stepLoop cfg s k) := by
+theorem invW_loop (cfg : Cfg) (s : St) (k : Nat) (hN : InvN s) (h : InvW cfg s) : InvW cfg (stepLoop cfg s k) := by
   unfold stepLoop
   split
   · exact h
@@ -64,7 +64,7 @@ theorem invW_loop (cfg : Cfg) (s : St) (k : Nat) (hA : InvA s) (h : InvW cfg s) 
     · refine invW_frame cfg s _ rfl rfl rfl ?_ ?_ h <;> intro j <;> simp only [St.upd] <;> split <;> simp_all
     · exact invW_frame cfg s _ rfl rfl rfl (fun _ => rfl) (fun _ => rfl) h
   · refine invW_frame cfg s _ rfl rfl rfl ?_ ?_ h <;> intro j <;> simp only [St.upd, St.emit] <;> split <;> simp_all
-  · exact invW_frame cfg s _ rfl rfl rfl (fun _ => rfl) (fun _ => rfl) h
+  · refine invW_frame cfg s _ rfl rfl rfl ?_ ?_ h <;> intro j <;> simp only [St.upd, St.emit, St.enq] <;> split <;> simp_all
   · refine invW_frame cfg s _ rfl rfl rfl ?_ ?_ h <;> intro j <;> simp only [St.upd] <;> split <;> simp_all
   · rename_i i heq
     obtain ⟨w1, w2⟩ := h
@@ -80,7 +80,7 @@ theorem invW_loop (cfg : Cfg) (s : St) (k : Nat) (hA : InvA s) (h : InvW cfg s) 
       · simp [e] at hj
       · simp only [e, if_false] at hj; exact w2 j hj
   · rename_i todo heq
-    exact absurd heq (hA.lp.2 todo)
+    exact absurd heq (hN.lp.2 todo)
 
 theorem invW_watcher (cfg : Cfg) (s : St) (k : Nat) (h : InvW cfg s) : InvW cfg (stepWatcher s k) := by
   obtain ⟨w1, w2⟩ := h
@@ -133,7 +133,7 @@ theorem mem_idsWhere (s : St) (p : Req → Bool) (j : Nat) (h : j ∈ idsWhere s
   unfold idsWhere at h
   simpa using h
 
-theorem invW_step (cfg : Cfg) (s : St) (a : Act) (ha : a ≠ .cancel) (hA : InvA s) (h : InvW cfg s) :
+theorem invW_step (cfg : Cfg) (s : St) (a : Act) (ha : a ≠ .cancel) (hA : InvA s) (hN : InvN s) (h : InvW cfg s) :
     InvW cfg (step cfg s a) := by
   unfold step
   rw [hA.np]
@@ -155,7 +155,7 @@ theorem invW_step (cfg : Cfg) (s : St) (a : Act) (ha : a ≠ .cancel) (hA : InvA
     show InvW cfg (stepPush s i)
     unfold stepPush
     split
-    · refine invW_frame cfg s _ rfl rfl rfl ?_ ?_ h <;> intro j <;> simp only [St.upd, St.emit] <;> split <;> simp_all
+    · refine invW_frame cfg s _ rfl rfl rfl ?_ ?_ h <;> intro j <;> simp only [St.upd, St.emit, St.enq] <;> split <;> simp_all
     · exact h
   | wake i =>
     show InvW cfg (stepWake s i)
@@ -181,7 +181,7 @@ theorem invW_step (cfg : Cfg) (s : St) (a : Act) (ha : a ≠ .cancel) (hA : InvA
     split
     · split <;> exact invW_frame cfg s _ rfl rfl rfl (fun _ => rfl) (fun _ => rfl) h
     · exact h
-  | loopStep k => exact invW_loop cfg s k hA h
+  | loopStep k => exact invW_loop cfg s k hN h
   | wScan =>
     show InvW cfg (stepScan cfg s)
     unfold stepScan
@@ -198,13 +198,13 @@ theorem invW_step (cfg : Cfg) (s : St) (a : Act) (ha : a ≠ .cancel) (hA : InvA
   | wStep k => exact invW_watcher cfg s k h
   | cancel => exact absurd rfl ha
 
-theorem invAW_run (cfg : Cfg) (acts : List Act) (s : St) (hn : noCancel acts) (hA : InvA s) (hW : InvW cfg s) :
-    InvA (run cfg s acts) ∧ InvW cfg (run cfg s acts) := by
+theorem invAW_run (cfg : Cfg) (acts : List Act) (s : St) (hn : noCancel acts) (hA : InvA s) (hN : InvN s)
+    (hW : InvW cfg s) : InvW cfg (run cfg s acts) := by
   induction acts generalizing s with
-  | nil => exact ⟨hA, hW⟩
+  | nil => exact hW
   | cons a rest ih =>
     have ha : a ≠ .cancel := fun e => hn (by simp [e])
     have hr : noCancel rest := fun e => hn (by simp [e])
-    exact ih (step cfg s a) hr (invA_step cfg s a ha hA) (invW_step cfg s a ha hA hW)
+    exact ih (step cfg s a) hr (invA_step cfg s a hA) (invN_step cfg s a ha hN) (invW_step cfg s a ha hA hN hW)
 
 end LunarVerif.C06
